@@ -17,6 +17,7 @@ import copy
 import csv
 import gzip
 import io
+import zlib
 import json
 import os
 
@@ -85,6 +86,11 @@ def cases(ctx):
             c['csvargs'] = args
             c['write_header'] = rng.random() < 0.8
             c['extra'] = [[[cell() for _ in range(nf)] for _ in range(rng.randint(0, 3))] for _ in range(c['appends'])]
+            # errors=: the codec's policy for what the encoding lacks.  The judged text is always representable, so no policy may
+            # change anything (chosen by a hash of the table, which leaves the seeded stream of cases as it was)
+            h_ = zlib.crc32(repr(c['table']).encode('utf-8', 'backslashreplace'))
+            if h_ % 4 == 0:
+                c['errors'] = ['strict', 'replace', 'ignore', 'backslashreplace', 'xmlcharrefreplace'][(h_ // 4) % 5]
         elif fmt == 'pickle':
             t = gen.table(rng, nrows=n, nfields=nf, pool=PICKLECELLS, ragged=0.3 if rng.random() < 0.4 else 0)
             if rng.random() < 0.3:
@@ -299,6 +305,9 @@ def _judge_csv(case, ctx):
     kw = dict(args)
     if enc is not None:
         kw['encoding'] = enc
+    if case.get('errors'):
+        kw['errors'] = case['errors']
+        ctx.seen('errors=' + case['errors'])
     to = petl.tocsv if fmt == 'csv' else petl.totsv
     ap = petl.appendcsv if fmt == 'csv' else petl.appendtsv
     frm = petl.fromcsv if fmt == 'csv' else petl.fromtsv
